@@ -446,28 +446,52 @@ func (ctx *Context) evaluate() {
 		}
 	}
 
-	var wodState struct {
+	type wodStateT struct {
 		pool      IntType
 		points    IntType
 		threshold IntType
 		isGE      bool
 	}
+	// 骰池表达式的参数本身可以是骰池表达式(3a11m(2a11k1))，所以状态按嵌套层保存:
+	// init 压入一层，掷骰后弹出。wodState 始终指向当前层
+	wodStack := []wodStateT{{}}
+	wodState := &wodStack[0]
 
 	wodInit := func() {
-		wodState.pool = 1
-		wodState.points = 10   // 面数，默认d10
-		wodState.threshold = 8 // 成功线，默认9
-		wodState.isGE = true
+		wodStack = append(wodStack, wodStateT{
+			pool:      1,
+			points:    10, // 面数，默认d10
+			threshold: 8,  // 成功线，默认9
+			isGE:      true,
+		})
+		wodState = &wodStack[len(wodStack)-1]
+	}
+	wodDone := func() {
+		if len(wodStack) > 1 {
+			wodStack = wodStack[:len(wodStack)-1]
+		}
+		wodState = &wodStack[len(wodStack)-1]
 	}
 
-	var dcState struct {
+	type dcStateT struct {
 		pool   IntType
 		points IntType
 	}
+	dcStack := []dcStateT{{}}
+	dcState := &dcStack[0]
 
 	dcInit := func() {
-		dcState.pool = 1    // 骰数，默认1
-		dcState.points = 10 // 面数，默认d10
+		dcStack = append(dcStack, dcStateT{
+			pool:   1,  // 骰数，默认1
+			points: 10, // 面数，默认d10
+		})
+		dcState = &dcStack[len(dcStack)-1]
+	}
+	dcDone := func() {
+		if len(dcStack) > 1 {
+			dcStack = dcStack[:len(dcStack)-1]
+		}
+		dcState = &dcStack[len(dcStack)-1]
 	}
 
 	solveDetail := func() {
@@ -1128,6 +1152,7 @@ func (ctx *Context) evaluate() {
 			}
 
 			num, _, _, detailText := rollWoDWithBudget(ctx.RandSrc, addLine, wodState.pool, wodState.points, wodState.threshold, wodState.isGE, getRollMode(), numOpCountAdd)
+			wodDone()
 			if ctx.Error != nil {
 				return
 			}
@@ -1167,6 +1192,7 @@ func (ctx *Context) evaluate() {
 				return
 			}
 			success, _, _, detailText := rollDoubleCrossWithBudget(ctx.RandSrc, addLine, dcState.pool, dcState.points, getRollMode(), numOpCountAdd)
+			dcDone()
 			if ctx.Error != nil {
 				return
 			}
